@@ -265,6 +265,18 @@ pub fn cipher_list() -> impl Strategy<Value = Vec<u16>> {
         8 => u16_list(24, true),
         1 => Just(vec![]),
         1 => u16_list(130, true),
+        // counts around the one-octet boundary (the two-digit count saturates at 99 for any size)
+        1 => (prop_oneof![Just(255usize), Just(256), Just(257), Just(300), Just(511), Just(513)], any::<u16>()).prop_map(|(n, start)| {
+            let mut v = vec![];
+            let mut t = start;
+            while v.len() < n {
+                t = t.wrapping_add(7);
+                if !is_grease(t) {
+                    v.push(t);
+                }
+            }
+            v
+        }),
     ]
 }
 
@@ -295,7 +307,7 @@ pub fn hello() -> impl Strategy<Value = Hello> {
 
 /// > 99 extensions (all opaque / GREASE-free distinct types are too few, so use distinct private types)
 fn big_ext_list() -> impl Strategy<Value = Vec<Ext>> {
-    (95usize..120, any::<u16>()).prop_map(|(n, start)| {
+    (prop_oneof![4 => 95usize..120, 1 => prop_oneof![Just(255usize), Just(256), Just(257), Just(300)]], any::<u16>()).prop_map(|(n, start)| {
         let mut v = vec![];
         let mut t = 0x8000u16 | (start & 0x0fff);
         while v.len() < n {
